@@ -196,3 +196,63 @@ Definition model_C03 (i:c03_in) : c03_out :=
 Definition corr_C03 (i:c03_in) (o:c03_out) : bool :=
   let '(G, _, _, _) := i in
   ndeps_okb G && list_eqb (list_eqb obs_eqb) (model_C03 i) o.
+
+(* ================================================================== offline (--sql) mode *)
+(* what is observed offline after one step: the statements as emitted into the script (there is no rowcount: the
+   count field is 0) and the heads handed to on_version_apply; or the exception class *)
+Inductive sobs := SOk (heads_after : list N) (stmts : list stmt) | SErr (e:herr).
+Definition erase (s:stmt) : stmt := match s with Ins v => Ins v | Del v _ => Del v 0 | Upd f t _ => Upd f t 0 end.
+
+(* executing emitted statements on a table: new rows, and the statement with the number of rows it matched *)
+Definition exec_stmt (s:stmt) (rws:list N) : list N * stmt :=
+  match s with
+  | Ins v => (rws ++ [v], Ins v)
+  | Del v _ => (removeN v rws, Del v (countN v rws))
+  | Upd f t _ => (upd_rows f t rws, Upd f t (countN f rws))
+  end.
+Fixpoint exec_stmts (l:list stmt) (rws:list N) : list N * list stmt :=
+  match l with
+  | [] => (rws, [])
+  | s :: r => let (rws1, s') := exec_stmt s rws in let (rws2, r') := exec_stmts r rws1 in (rws2, s' :: r')
+  end.
+(* the script of one command executed on a table holding rws *)
+Fixpoint replay (os:list sobs) (rws:list N) : list obs :=
+  match os with
+  | [] => []
+  | SOk _ st :: r => let (rws', st') := exec_stmts st rws in ObsOk rws' st' :: replay r rws'
+  | SErr e :: _ => [ObsErr e]
+  end.
+
+(* an offline case: every command is one `--sql` run starting from starting_rev = rws0 (the input's reset flag is true) *)
+Definition off_out := list (list sobs).
+Definition Offline_holds (i:c03_in) (o:off_out) : Prop :=
+  let '(_, rws0, _, _) := i in C03_holds i (map (fun os => replay os rws0) o).
+Definition check_offline (i:c03_in) (o:off_out) : bool :=
+  let '(_, rws0, _, _) := i in check_C03 i (map (fun os => replay os rws0) o).
+
+Definition to_sobs (o:obs) : sobs := match o with ObsOk r st => SOk r (map erase st) | ObsErr e => SErr e end.
+Definition model_offline (i:c03_in) : off_out :=
+  let '(G, rws0, _, cmds) := i in
+  map (fun c => map to_sobs (fst (run_cmd_g true G (fun l => l) (snd c) rws0))) cmds.
+Definition stmts_eqb0 (a b:list stmt) : bool := stmts_eqb a b.
+Definition sobs_eqb (a b:sobs) : bool :=
+  match a, b with
+  | SOk h s, SOk h' s' => permb h h' && stmts_eqb s s'
+  | SErr e, SErr e' => herr_eqb e e'
+  | _, _ => false
+  end.
+Definition corr_offline (i:c03_in) (o:off_out) : bool :=
+  let '(G, _, _, _) := i in
+  ndeps_okb G && list_eqb (list_eqb sobs_eqb) (model_offline i) o.
+
+(* what the engine evaluates *)
+Inductive c03_any := COn (i:c03_in) | COff (i:c03_in).
+Inductive c03_anyout := OOn (o:c03_out) | OOff (o:off_out).
+Definition C03_any_holds (i:c03_any) (o:c03_anyout) : Prop :=
+  match i, o with COn i, OOn o => C03_holds i o | COff i, OOff o => Offline_holds i o | _, _ => False end.
+Definition check_C03_any (i:c03_any) (o:c03_anyout) : bool :=
+  match i, o with COn i, OOn o => check_C03 i o | COff i, OOff o => check_offline i o | _, _ => false end.
+Definition corr_C03_any (i:c03_any) (o:c03_anyout) : bool :=
+  match i, o with COn i, OOn o => corr_C03 i o | COff i, OOff o => corr_offline i o | _, _ => false end.
+Definition model_C03_any (i:c03_any) : c03_anyout :=
+  match i with COn i => OOn (model_C03 i) | COff i => OOff (model_offline i) end.
